@@ -103,13 +103,18 @@ def tlc(ctx, module, cfgtext, workers=1, timeout=600, xmx='6g', extra=None, name
         res['states'], res['distinct'] = int(m[-1][0]), int(m[-1][1])
     return res
 
+def subst_cfg(cfg, consts):
+    """{Name} placeholders; two passes, so that a value may itself refer to another constant (Limits = {{Limit}})"""
+    for _ in range(2):
+        for k, v in consts.items():
+            cfg = cfg.replace('{' + k + '}', str(v))
+    return cfg
+
 def run_mc(ctx, mc):
     """Exhaustive model checking of one bounded configuration of the specification."""
     consts = dict(mc.get('consts', {}))
     consts.update(mc.get(ctx.tier, {}))
-    cfg = mc['cfg']
-    for k, v in consts.items():
-        cfg = cfg.replace('{' + k + '}', str(v))
+    cfg = subst_cfg(mc['cfg'], consts)
     res = tlc(ctx, mc['module'], cfg, workers=mc.get('workers', 8), timeout=mc.get('timeout', 900),
               xmx=mc.get('xmx', '8g'), name=mc['name'], extra=mc.get('extra'))
     if res['rc'] != 0:
